@@ -145,6 +145,9 @@ def check(ck: Checker) -> None:
     from . import round4 as _r4
 
     _r4.merge_loads_strict(ck, "C19.digest")
+    from . import round7 as _r7
+
+    _r7.from_list_splits_raw_relpath(ck, "C19.digest")
 
 
 
